@@ -58,12 +58,13 @@ def _ghost_env():
 
     class GhostND:
         ndim = 2
+        base = None  # numpy: the array owning the memory (views of views point at the root)
 
         def __init__(self):
             self.flags = _Flags(WRITEABLE=True)
 
         def tobytes(self, order="C"):
-            log.append(("tobytes", id(self)))
+            log.append(("tobytes", id(self), order))
             return ("BYTES", id(self), getattr(self, "_version", 0))
 
     def mk(name):
@@ -124,20 +125,37 @@ def method_contracts():
             obls.append({"id": oid, "status": "violated", "backend": "ghost-exec", "detail": "log=%r dirty_after=%r" % (dele, g.__dict__.get("_dirty_hash")), "witness": {"method": name}, "replayed": False, "need_real": name})
     # __array_finalize__
     oid = "C02/trimesh.caching.TrackedArray.__array_finalize__/dirties-self-and-tracked-parent"
-    fin_self = fin_parent = False
+    fin_self = fin_parent = fin_parent_indirect = False
+    fin_err = ""
     if "__array_finalize__" in names:
-        a, b = TA.__new__(TA), TA.__new__(TA)
-        GhostND.__init__(a)
-        GhostND.__init__(b)
-        b._dirty_hash = False
-        TA.__array_finalize__(a, b)
-        fin_self = a.__dict__.get("_dirty_hash") is True
-        fin_parent = b._dirty_hash is True
-        c = TA.__new__(TA)
-        GhostND.__init__(c)
-        TA.__array_finalize__(c, None)
-        fin_self = fin_self and c.__dict__.get("_dirty_hash") is True
-    obls.append({"id": oid, "status": "discharged" if (fin_self and fin_parent) else "violated", "backend": "ghost-exec", "detail": "self dirty=%s, tracked parent dirty=%s" % (fin_self, fin_parent), "witness": {"method": "__array_finalize__"}, "replayed": False})
+        try:
+            # the new array is a direct view of obj (self.base is obj)
+            a, b = TA.__new__(TA), TA.__new__(TA)
+            GhostND.__init__(a)
+            GhostND.__init__(b)
+            a.base = b
+            b._dirty_hash = False
+            TA.__array_finalize__(a, b)
+            fin_self = a.__dict__.get("_dirty_hash") is True
+            fin_parent = b._dirty_hash is True
+            # obj is itself a view: numpy collapses .base to the root, so self.base is NOT obj
+            root, mid, leaf = TA.__new__(TA), TA.__new__(TA), TA.__new__(TA)
+            for g_ in (root, mid, leaf):
+                GhostND.__init__(g_)
+            mid.base = root
+            leaf.base = root
+            mid._dirty_hash = False
+            TA.__array_finalize__(leaf, mid)
+            fin_parent_indirect = mid._dirty_hash is True and leaf.__dict__.get("_dirty_hash") is True
+            # a copy / ufunc result (no shared memory): only self needs the flag
+            c = TA.__new__(TA)
+            GhostND.__init__(c)
+            TA.__array_finalize__(c, None)
+            fin_self = fin_self and c.__dict__.get("_dirty_hash") is True
+        except Exception as e:  # noqa: BLE001
+            fin_err = " (raised %r on the ghost)" % (e,)
+            fin_self = fin_parent = fin_parent_indirect = False
+    obls.append({"id": oid, "status": "discharged" if (fin_self and fin_parent and fin_parent_indirect) else "violated", "backend": "ghost-exec", "detail": "self dirty=%s, tracked parent dirty=%s, tracked parent that is itself a view (self.base is the root, not the parent) dirty=%s%s" % (fin_self, fin_parent, fin_parent_indirect, fin_err), "witness": {"method": "__array_finalize__"}, "replayed": False})
     # __hash__
     oid = "C02/trimesh.caching.TrackedArray.__hash__/fresh-when-dirty-cached-only-when-clean"
     g = TA.__new__(TA)
@@ -149,15 +167,16 @@ def method_contracts():
     recomputed = r1 == ("H", ("BYTES", id(g), 0)) and g._dirty_hash is False and g._hashed == r1
     del log[:]
     r2 = TA.__hash__(g)
+    c_order = all(e[2] == "C" for e in log if e[0] == "tobytes")  # the bytes a fresh C array of the same values holds
     cached = r2 == r1 and not any(e[0] == "tobytes" for e in log)
     g2 = TA.__new__(TA)
     GhostND.__init__(g2)
     g2._dirty_hash = False  # clean flag but nothing stored: must compute
     r3 = TA.__hash__(g2)
     nostore = r3 == ("H", ("BYTES", id(g2), 0))
-    okh = recomputed and cached and nostore
-    obls.append({"id": oid, "status": "discharged" if okh else "violated", "backend": "ghost-exec", "detail": "dirty => H(tobytes), stores it, clears flag: %s; clean => stored value, no recomputation: %s; clean without stored value => computes: %s" % (recomputed, cached, nostore), "witness": {"method": "__hash__"}, "replayed": False})
-    facts = {"setters": setters, "fin_self": fin_self, "fin_parent": fin_parent, "hash_ok": okh, "hook_names": [n for n in names if n not in props], "sha": sha}
+    okh = recomputed and cached and nostore and c_order
+    obls.append({"id": oid, "status": "discharged" if okh else "violated", "backend": "ghost-exec", "detail": "dirty => H(tobytes), stores it, clears flag: %s; bytes taken in logical (C) order, independent of the memory layout: %s; clean => stored value, no recomputation: %s; clean without stored value => computes: %s" % (recomputed, c_order, cached, nostore), "witness": {"method": "__hash__"}, "replayed": False})
+    facts = {"setters": setters, "fin_self": fin_self, "fin_parent": fin_parent, "fin_parent_indirect": fin_parent_indirect, "hash_ok": okh, "hook_names": [n for n in names if n not in props], "sha": sha}
     return obls, facts
 
 
@@ -214,7 +233,7 @@ ROUTES = [
     ("buffer-write", _f, lambda w: memoryview(w).cast("B").__setitem__(95, 1)),
     ("random.shuffle", _f, lambda w: np.random.RandomState(1).shuffle(w)),
 ]
-CONFIGS = ["self", "tracked-view", "tracked-base", "untracked-view", "asarray-view"]
+CONFIGS = ["self", "tracked-view", "tracked-base", "untracked-view", "asarray-view", "later-tracked-view", "later-view-of-view", "later-transposed-view"]
 READONLY = [
     ("sum", lambda x: x.sum()),
     ("copy", lambda x: x.copy()),
@@ -255,6 +274,25 @@ def _run_route(mk, H, base, mutate, config):
         u = np.asarray(x)
         h0 = H(x)
         mutate(u)
+    elif config == "later-tracked-view":
+        # the normal case: the view is taken AFTER the hash was read
+        x = mk(data)
+        h0 = H(x)
+        v = x[:]
+        mutate(v)
+    elif config == "later-view-of-view":
+        # the hashed array is itself a view of a tracked root; a further view is taken
+        # after the hash was read (numpy collapses v.base to the root)
+        root = mk(data)
+        x = root[:]
+        h0 = H(x)
+        v = x[:]
+        mutate(v)
+    elif config == "later-transposed-view":
+        x = mk(data)
+        h0 = H(x)
+        v = x.T.T
+        mutate(v)
     else:
         raise ValueError(config)
     return x, h0, H(x)
@@ -299,8 +337,10 @@ def _model_run(facts, base, mutate, config):
     def fin(self, obj):
         if facts["fin_self"]:
             st(self)["dirty"] = True
-        if isinstance(obj, Probe) and facts["fin_parent"]:
-            st(obj)["dirty"] = True
+        if isinstance(obj, Probe):
+            direct = getattr(self, "base", None) is obj
+            if facts["fin_parent"] if direct else facts.get("fin_parent_indirect", False):
+                st(obj)["dirty"] = True
 
     ns["__array_finalize__"] = fin
     Probe = type("Probe", (np.ndarray,), ns)
@@ -358,7 +398,76 @@ def tracked_array_invariant(tier, seed, open_ids):
         h1 = hash(x)
         ok = h0 == h1 == hash(caching.tracked_array(_f()))
         obls.append({"id": oid, "status": "discharged" if ok else "violated", "backend": "real-run", "detail": "hash unchanged and equal to a fresh array's", "witness": {"op": name}, "replayed": True})
+    # memory layout: the hash is that of a fresh (C-ordered) array holding the same values
+    layouts = [("transposed-view", lambda a: a.T), ("fortran-copy", lambda a: a.copy(order="F")), ("strided-view", lambda a: a[::-1, ::2]), ("swapaxes", lambda a: a.swapaxes(0, 1)), ("asfortranarray-int", lambda a: np.asfortranarray(a.astype(np.int64)))]
+    for name, mkv in layouts:
+        oid = "C02/layout/%s" % name
+        x = mkv(caching.tracked_array(_f()))
+        x = caching.tracked_array(x) if not isinstance(x, caching.TrackedArray) else x
+        vals = np.array(x.view(np.ndarray), copy=True, order="C")
+        want = caching.hash_fast(vals.tobytes())
+        ok = x.__hash__() == want == caching.tracked_array(vals).__hash__()
+        obls.append({"id": oid, "status": "discharged" if ok else "violated", "backend": "real-run", "detail": "hash of a %s equals the hash of a fresh C-ordered array with the same values" % name, "witness": {"layout": name, "flags": str(x.flags.f_contiguous)}, "replayed": True})
     return {"obligations": obls, "trusted": ["numpy dispatch table observed on numpy %s" % np.__version__, "caching.py sha256 %s" % facts["sha"][:16]], "functions": ["trimesh.caching.TrackedArray.%s" % n for n in facts["hook_names"]], "errors": errors}
+
+
+# ----------------------------------------------------------------------------- DataStore.__hash__ is a function of the current members
+
+
+@protocol("C02", name="datastore-hash", note="DataStore.__hash__ from every abstract state (each member clean or dirty; store hash read before or not) under every member operation: equals the hash of a fresh store with the same current members")
+def datastore_hash(tier, seed, open_ids):
+    import itertools
+
+    from trimesh import caching
+
+    obls = []
+
+    def fresh_hash(ds):
+        f = caching.DataStore()
+        for k, v in ds.data.items():
+            f[k] = np.array(np.asarray(v), copy=True) if hasattr(v, "shape") else v
+        return f.__hash__()
+
+    A = lambda: np.arange(6, dtype=np.float64).reshape(2, 3)  # noqa: E731
+    B = lambda: np.arange(3, dtype=np.int64)  # noqa: E731
+    OTHER = np.arange(6, dtype=np.float64).reshape(2, 3) * 2.0 + 1.0
+
+    def ops():
+        yield "replace-by-clean-tracked-array-of-other-content", lambda ds, donor: ds.__setitem__("a", donor)
+        yield "replace-by-plain-array-of-other-content", lambda ds, donor: ds.__setitem__("a", OTHER.copy())
+        yield "replace-by-equal-content", lambda ds, donor: ds.__setitem__("a", A())
+        yield "in-place-item-edit", lambda ds, donor: ds["a"].__setitem__((0, 0), 42.0)
+        yield "in-place-iadd", lambda ds, donor: ds["a"].__iadd__(1.0)
+        yield "edit-second-member", lambda ds, donor: ds["b"].__setitem__(1, 9)
+        yield "set-scalar-override", lambda ds, donor: ds.__setitem__("density", 2.5)
+        yield "change-scalar-override", lambda ds, donor: (ds.__setitem__("density", 2.5), ds.__hash__(), ds.__setitem__("density", 3.5))
+        yield "clear-then-refill", lambda ds, donor: (ds.clear(), ds.__setitem__("a", OTHER.copy()))
+        yield "swap-members-between-keys", lambda ds, donor: (ds.__setitem__("a", np.arange(3, dtype=np.int64)), ds.__setitem__("b", A()))
+        yield "no-op-read", lambda ds, donor: ds["a"].sum()
+
+    for (opname, op), read_store_first, member_clean in itertools.product(list(ops()), (False, True), (False, True)):
+        oid = "C02/trimesh.caching.DataStore.__hash__/%s[store-hash-read=%s,members-clean=%s]" % (opname, read_store_first, member_clean)
+        ds = caching.DataStore()
+        ds["a"] = A()
+        ds["b"] = B()
+        donor = caching.tracked_array(OTHER.copy())
+        donor.__hash__()  # the donor's own hash is clean, as after a read on another mesh
+        if member_clean:
+            for v in ds.data.values():
+                v.__hash__()
+        h0 = ds.__hash__() if read_store_first else None
+        before = {k: (np.array(np.asarray(v), copy=True) if hasattr(v, "shape") else v) for k, v in ds.data.items()}
+        try:
+            op(ds, donor)
+            h1 = ds.__hash__()
+            want = fresh_hash(ds)
+            same_content = set(before) == set(ds.data) and all((np.array_equal(np.asarray(before[k]), np.asarray(ds.data[k])) and np.asarray(before[k]).dtype == np.asarray(ds.data[k]).dtype) if hasattr(before[k], "shape") else before[k] == ds.data[k] for k in before)
+            ok = h1 == want and (h0 is None or ((h1 == h0) == same_content))
+            detail = "hash equals a fresh store's; changed iff content changed (content same=%s)" % same_content
+        except Exception as e:  # noqa: BLE001
+            ok, detail = False, "raised %r" % (e,)
+        obls.append({"id": oid, "status": "discharged" if ok else "violated", "backend": "real-run state enumeration", "detail": detail, "witness": {"operation": opname, "store_hash_read_before": read_store_first, "members_clean": member_clean}, "replayed": True})
+    return {"obligations": obls, "trusted": ["hash collision freedom (T5)"], "functions": ["trimesh.caching.DataStore.__hash__", "trimesh.caching.DataStore.__setitem__"]}
 
 
 # ----------------------------------------------------------------------------- containers (D)
